@@ -7,6 +7,7 @@ import Edn.Model.Arena
 import Edn.Model.Registry
 import Edn.Model.Builder
 import Edn.Model.Uniq
+import Edn.Model.ReaderA
 
 open Edn.Model
 
@@ -304,6 +305,87 @@ def runScript (cfg : Cfg) (toks : List String) : String :=
         | _ => "bad-op" :: go regs ts
   "\t".intercalate (go (Array.replicate 16 none) toks)
 
+/-- growth rule of the collection builder as observed on the current source (next capacity = the next
+    entry of the extracted chain), `growHalf` beyond the chain -/
+def observedGrow : Nat → Nat :=
+  let rec lookup : List Nat → Nat → Option Nat
+    | c :: n :: rest, cap => if c == cap then some n else lookup rest cap
+    | _, _ => none
+  fun cap => (lookup Edn.Generated.Tables.builderGrowth cap).getD (growHalf cap)
+
+/-- the canonical dump with the accessor calls of the harness's dumper made under the schedule: per big integer /
+    big decimal three calls of its getter (one by the dump, which prints what it returns, then two by the accessor
+    audit that follows the node, which flags a NULL from its first), per string two calls of `edn_string_get` (the
+    first is printed; `UNSTABLE` when the second returns something else) -/
+partial def dumpValA (x : ACtx) (ranges : Bool) (n : Nat) (v : Val) (a : ASt) : String × ASt :=
+  let cfg := x.ctx.cfg
+  let h := v.hdr
+  let pos := if !ranges then "" else if h.synth then " 0 0" else s!" {n - h.s} {n - h.e}"
+  let kids (xs : List Val) (a : ASt) : String × ASt :=
+    xs.foldl (fun (acc : String × ASt) y => let (t, a') := dumpValA x ranges n y acc.2; (acc.1 ++ " " ++ t, a')) ("", a)
+  let withMd (body : String) (a : ASt) : String × ASt :=
+    match v.md with
+    | some m => if cfg.clj then (let (t, a') := dumpValA x ranges n m a; (body ++ " ^" ++ t ++ ")", a')) else (body ++ ")", a)
+    | none => (body ++ ")", a)
+  match v with
+  | .bigint _ neg radix _ =>
+    -- the node's own dump first, then the accessor audit (two more calls, a NULL from the first of them is flagged)
+    let (r1, a1) := materialiseA x v a
+    let (r2, a2) := materialiseA x v a1
+    let (_, a3) := materialiseA x v a2
+    (s!"(bigint{pos} {b01 neg} {radix} {match r1 with | some b => hexOf b | none => "NULL"})" ++
+      (if r2.isNone then "!ACCESSOR:bigint_get" else ""), a3)
+  | .bigdec _ neg _ =>
+    let (r1, a1) := materialiseA x v a
+    let (r2, a2) := materialiseA x v a1
+    let (_, a3) := materialiseA x v a2
+    (s!"(bigdec{pos} {b01 neg} {match r1 with | some b => hexOf b | none => "NULL"})" ++
+      (if r2.isNone then "!ACCESSOR:bigdec_get" else ""), a3)
+  | .str _ _ _ =>
+    let (r1, a1) := materialiseA x v a
+    let (r2, a2) := materialiseA x v a1
+    let body := match r1 with
+      | none => "ERR"
+      | some b => s!"{b.length} {hexOf b}"
+    (s!"(str{pos} {body}{if r1.isNone && r2.isSome then " UNSTABLE" else ""})", a2)
+  | .sym _ _ ns name => withMd s!"(sym{pos} {match ns with | some n => hexOf n | none => "_"} {hexOf name}" a
+  | .list _ _ xs => let (t, a1) := kids xs a; withMd s!"(list{pos}{t}" a1
+  | .vec _ _ xs => let (t, a1) := kids xs a; withMd s!"(vec{pos}{t}" a1
+  | .set _ _ xs => let (t, a1) := kids xs a; withMd s!"(set{pos}{t}" a1
+  | .map _ _ ks vs =>
+    let (t, a1) := (ks.zip vs).foldl (fun (acc : String × ASt) (kv : Val × Val) =>
+      let (tk, a') := dumpValA x ranges n kv.1 acc.2
+      let (tv, a'') := dumpValA x ranges n kv.2 a'
+      (acc.1 ++ " " ++ tk ++ " " ++ tv, a'')) ("", a)
+    withMd s!"(map{pos}{t}" a1
+  | .tagged _ _ tag y => let (t, a1) := dumpValA x ranges n y a; withMd s!"(tagged{pos} {hexOf tag} {t}" a1
+  | v => (dumpVal cfg ranges n v, a)
+
+/-- `H <k> <mode> <opt> <hex>` : read with logical request k failing (mode 1: only k; mode 2: k and every
+    later one; k = 0: none); the outcome as `R` prints it, then the allocation summary -/
+def runFaultRead (cfg : Cfg) (k mode o : Nat) (inp : Bytes) : String :=
+  -- modes 3 / 4 = 1 / 2 with the schedule running on through the accessor calls of the dump
+  let from_ := mode == 2 || mode == 4
+  let orc : Nat → Bool := fun n => if k == 0 then false else if from_ then n ≥ k else n == k
+  -- bit 5 of opt: the C library's own qsort (glibc merge sort) presents the elements to the comparator; otherwise
+  -- the sanitised build is modelled, where ASan's qsort interceptor first runs the comparator over all adjacent pairs
+  let touch : Nat → List Nat := if (o / 32) % 2 == 1 then (fun n => msortTouch n 0 n) else List.range
+  -- of the preset handlers only `ext` requests memory (edn_external_create)
+  let hreq : String → Bool := fun name => name == "ext"
+  let r := readA cfg (optsOf o) orc inp observedGrow hreq touch
+  let summary (a : ASt) : String := s!" reqs={a.reqs} live={a.live.length} arena={a.arena.render} trace=[{a.renderTrace}]"
+  let withCalls := (o / 8) % 2 == 1
+  if mode == 3 || mode == 4 then
+    match r.out with
+    | .value v =>
+      let x : ACtx := { ctx := { cfg := cfg, opts := optsOf o }, orc := orc, grow := observedGrow, handlerReq := hreq, sortTouch := touch }
+      let (t, a') := dumpValA x true inp.length v r.ast
+      let calls := if withCalls then " calls=[" ++ " ".intercalate (r.calls.map fun c => s!"{c.name}@{inp.length - c.s}:{inp.length - c.e}") ++ "]" else ""
+      let dtrace := String.join ((a'.trace.take (a'.trace.length - r.ast.trace.length)).reverse.map Ev.render)
+      "ok " ++ t ++ calls ++ summary r.ast ++ s!" dump-reqs={a'.reqs} dump-trace=[{dtrace}]"
+    | _ => dumpResult cfg withCalls inp.length r.result ++ summary r.ast ++ s!" dump-reqs={r.ast.reqs} dump-trace=[]"
+  else dumpResult cfg withCalls inp.length r.result ++ summary r.ast
+
 def step (cfg : Cfg) (line : String) : Cfg × String :=
   match line.trimAscii.toString.splitOn " " with
   | ["C", n] => (cfgOfBits n.toNat!, s!"cfg {n}")
@@ -311,6 +393,7 @@ def step (cfg : Cfg) (line : String) : Cfg × String :=
     let o := opt.toNat!
     let inp := unhex hex
     (cfg, dumpResult cfg ((o / 8) % 2 == 1) inp.length (read cfg (optsOf o) inp))
+  | ["H", k, mode, opt, hex] => (cfg, runFaultRead cfg k.toNat! mode.toNat! opt.toNat! (unhex hex))
   | ["S", name, start, hex] => (cfg, runScan name start.toNat! (unhex hex))
   | ["L", hex] => (cfg, runLines (unhex hex))
   | "N" :: rest => (cfg, runNum cfg rest)
